@@ -79,6 +79,20 @@ func singleElemSlice(v ssa.Value) bool {
 	return ok && arr.Len() == 1
 }
 
+// emptyLiteralSlice: the value is []T{} (a slice over a fresh zero-length array).
+func emptyLiteralSlice(v ssa.Value) bool {
+	sl, ok := v.(*ssa.Slice)
+	if !ok || sl.Low != nil || sl.High != nil {
+		return false
+	}
+	al, ok := sl.X.(*ssa.Alloc)
+	if !ok {
+		return false
+	}
+	arr, ok := al.Type().Underlying().(*types.Pointer).Elem().Underlying().(*types.Array)
+	return ok && arr.Len() == 0
+}
+
 func (f *Frame) appendOp(x *ssa.Call, c *ssa.CallCommon, at string, st *State) *Val {
 	vc := f.vc
 	s := f.term(c.Args[0])
@@ -162,6 +176,13 @@ func (f *Frame) appendOp(x *ssa.Call, c *ssa.CallCommon, at string, st *State) *
 		q := fmt.Sprintf("q!%d", vc.ctr)
 		vc.assume(at, fmt.Sprintf("(forall ((%[1]s Int)) (! (=> (and (<= 0 %[1]s) (< %[1]s %[2]s)) (= (select %[3]s (ix %[4]s %[1]s)) (select %[5]s (ix (s_off %[6]s) %[1]s)))) :pattern ((select %[3]s (ix %[4]s %[1]s)))))",
 			q, n, inner, rOff, oldInner, s), "append: prefix kept (indexed form)")
+	}
+	if !tIsStr && !single && emptyLiteralSlice(c.Args[0]) && os.Getenv("GOVC_NO_IDXPREFIX") == "" && !isByteSlice(c.Args[0].Type()) {
+		// the copy idiom append([]T{}, s...): r[k] == s[k] in the indexed form
+		vc.ctr++
+		q := fmt.Sprintf("q!%d", vc.ctr)
+		vc.assume(at, fmt.Sprintf("(forall ((%[1]s Int)) (! (=> (and (<= 0 %[1]s) (< %[1]s %[2]s)) (= (select %[3]s (ix %[4]s %[1]s)) (select (select %[5]s %[6]s) (ix %[7]s %[1]s)))) :pattern ((select %[3]s (ix %[4]s %[1]s)))))",
+			q, kk, inner, rOff, hs, tArr, tOff), "append to an empty literal: the copy (indexed form)")
 	}
 	if isByteSlice(c.Args[0].Type()) {
 		var tview string
